@@ -549,6 +549,26 @@ pub fn run_real(env: &Env, set: &InputSet, argv: &[String], slot: &str) -> Resul
         }
         std::fs::write(&p, b).map_err(|e| e.to_string())?;
     }
+    // every second case (by a hash of its command line) runs in a directory that already holds longer, stale files
+    // under the names outputs usually get: an output file is *replaced*, never patched at its start
+    let stale_on = {
+        use std::hash::Hasher;
+        let mut h = Fnv::default();
+        h.write(argv.join("\u{1}").as_bytes());
+        h.finish() % 2 == 0
+    };
+    let mut stale: BTreeMap<String, Vec<u8>> = BTreeMap::new();
+    if stale_on {
+        for n in ["out0.x", "out1.x", "out2.x", "out3.x", "main.bin", "main.txt", "main.mlb", "dir/main.bin", "dir/main.txt", "dir/main.mlb"] {
+            if set.files.iter().any(|(m, _)| m == n) {
+                continue;
+            }
+            let content = vec![0xeeu8; 8192];
+            let p = dir.join(n);
+            std::fs::write(&p, &content).map_err(|e| e.to_string())?;
+            stale.insert(n.to_string(), content);
+        }
+    }
     let out = std::process::Command::new(bin)
         .args(argv)
         .current_dir(&dir)
@@ -568,7 +588,12 @@ pub fn run_real(env: &Env, set: &InputSet, argv: &[String], slot: &str) -> Resul
                     modified.push(n.clone());
                 }
             }
-            None => writes.push((n.clone(), b.clone())),
+            None => {
+                // a stale file that is still exactly as it was has not been written
+                if stale.get(n) != Some(b) {
+                    writes.push((n.clone(), b.clone()));
+                }
+            }
         }
     }
     for (n, _) in &set.files {
